@@ -715,6 +715,9 @@ func runV1(t *testing.T, cfg Config, seed int64, steps int, flush func(log []any
 	synctest.Test(t, func(t *testing.T) {
 		rnd := rand.New(rand.NewSource(seed))
 		r := newV1(t, cfg, true)
+		if cfg.Cancel && seed%9 == 4 { // cancellation from point zero: before the scheduler made its first step
+			r.control("cancel")
+		}
 		faultStep := -1
 		if cfg.Faults > 0 {
 			faultStep = rnd.Intn(steps)
